@@ -31,6 +31,8 @@ def run_shard(spec, rec):
     R = random.Random(spec["seed"])
     cfg = G.Cfg(filters=False, max_segments=4)
     gen = G.QGen(R, cfg)
+    from jsonpath_rfc9535 import JSONPathEnvironment
+    toggled = JSONPathEnvironment()
     for _ in range(spec["n"]):
         q = gen.query(root="$", nofilter=True)
         doc = D.doc_for(R, q, maxdepth=R.choice([3, 4, 5]), maxwidth=R.choice([3, 4, 5]))
@@ -38,6 +40,8 @@ def run_shard(spec, rec):
         via = R.choice(["find", "finditer", "finditer"])
         if R.random() < 0.25:
             via = ("reuse", D.doc_for(R, q, maxdepth=3, maxwidth=3))
+        elif R.random() < 0.1:
+            via = ("toggle", toggled)
         try:
             with guard(20):
                 key, want, got = SD.check_case(jp, text, q, doc, rec, via)
